@@ -75,9 +75,11 @@ func runC20(r *engine.Run) {
 	}
 
 	// --- days
-	nDays := uint64(time.Date(2100, 1, 1, 0, 0, 0, 0, time.UTC).Sub(epoch)/(24*time.Hour)) + 1
-	r.PartDims("gps/days", []string{fmt.Sprintf("day:%d", nDays), "instant:3"}, nDays, func(c *engine.Case) {
-		day := epoch.Add(time.Duration(c.Index) * 24 * time.Hour)
+	// from 1980-01-01 (five days before the GPS epoch: negative durations) to 2100-01-01
+	const preEpochDays = 5
+	nDays := uint64(time.Date(2100, 1, 1, 0, 0, 0, 0, time.UTC).Sub(epoch)/(24*time.Hour)) + 1 + preEpochDays
+	r.PartDims("gps/days", []string{fmt.Sprintf("day:%d (1980-01-01 .. 2100-01-01)", nDays), "instant:4"}, nDays, func(c *engine.Case) {
+		day := epoch.Add(time.Duration(int64(c.Index)-preEpochDays) * 24 * time.Hour)
 		ts := []time.Time{day, day.Add(12 * time.Hour), day.Add(24*time.Hour - time.Second), day.Add(24 * time.Hour)}
 		var prev time.Duration
 		for i, t := range ts {
